@@ -10,6 +10,10 @@ structure DState where
   nextTok : Nat := 1
   hookMode : Int := 0
   hookCode : Int := 0
+  peerGone : List Nat := []      -- connections whose viewer end was closed by the script
+  reaped : List Nat := []        -- closed clients freed by rfbClientConnectionGone
+  nscr : Int := -1               -- application's screen-layout hook: number of screens (-1: library default)
+  extFail : Int := -1            -- index at which the per-screen hook fails (-1: never)
 
 def showRect (r : Rect) : String := s!"{r.x1},{r.y1},{r.x2},{r.y2}"
 
@@ -20,18 +24,32 @@ def showCopy (c : CopyRectMsg) : String := s!"{c.x},{c.y},{c.w},{c.h},{c.srcX},{
 
 def b01 (b : Bool) : String := if b then "1" else "0"
 
-def showMsg : Msg → String
+def showScreen (x : Int × Int × Int × Int × Int × Int) : String :=
+  match x with
+  | (a, b, c, d, e, f) => s!"{a},{b},{c},{d},{e},{f}"
+
+/-- the screen list is what the application's hooks supply: `n` screens (i+1, i, 0, w, h, 0); the
+library's default hooks: one screen (1, 0, 0, w, h, 0).  More than two are abbreviated. -/
+def showScreens (n : Int) (w h : Int) : String :=
+  let k := if n < 0 then 1 else n.toNat
+  let scr (i : Nat) : Int × Int × Int × Int × Int × Int := ((i : Int) + 1, (i : Int), 0, w, h, 0)
+  if k ≤ 2 then ";".intercalate ((List.range k).map fun i => showScreen (scr i))
+  else s!"n={k};{showScreen (scr 0)};{showScreen (scr (k - 1))}"
+
+def showMsg (nscr : Int) : Msg → String
   | .size w h => s!"size {w} {h}"
-  | .ext r s w h scr =>
-    s!"ext r={r} s={s} {w} {h} [" ++
-      ";".intercalate (scr.map fun (a, b, c, d, e, f) => s!"{a},{b},{c},{d},{e},{f}") ++ "]"
+  | .ext r s w h _ => s!"ext r={r} s={s} {w} {h} [{showScreens nscr w h}]"
   | .resize w h => s!"rsz {w} {h}"
   | .fbu cs copies raws =>
     s!"fbu cs={b01 cs} copies=[" ++ ";".intercalate (copies.map showCopy) ++ "] raws=[" ++
       ";".intercalate (raws.map showRect) ++ "]"
 
-def showObs (o : Obs) : String :=
-  if o.msgs.isEmpty then "none" else " | ".intercalate (o.msgs.map fun m => showMsg m.2)
+def showObs (nscr : Int) (o : Obs) : String :=
+  if o.msgs.isEmpty then "none" else " | ".intercalate (o.msgs.map fun m => showMsg nscr m.2)
+
+/-- the flush rule of the size-message emitters (same as `VncModel.Resize.emit`, Teardown.lean) -/
+def emitRule (ublen need : Nat) : Nat × Nat :=
+  if ublen + need > VncModel.Gen.C16.UPDATE_BUF_SIZE then (ublen, need) else (0, ublen + need)
 
 def ints? (l : List String) : Option (List Int) := l.mapM parseInt?
 
@@ -51,10 +69,16 @@ def showState (s : Resize.Screen) (c : Resize.Client) : String :=
   s!"cur={b.cursorX},{b.cursorY} xl={if c.xlate.1 == c.xlate.2 then "none" else "tab"} fmt={c.fmt} " ++
   s!"scr={s.base.width},{s.base.height},{s.bpp},{s.base.cursorX},{s.base.cursorY} ss={c.sw},{c.sh}"
 
-def validB (b : Int) : Bool := b == 1 || b == 2 || b == 4
+def validB (b : Int) : Bool := 1 ≤ b && b ≤ 4
 
 def dstep (s : DState) (toks : List String) : DState × List String :=
-  let live (n : Nat) : Option Resize.Client := if s.haveScreen then getClient s.st n else none
+  let live (n : Nat) : Option Resize.Client :=
+    if s.haveScreen && !s.reaped.contains n then
+      (getClient s.st n).bind fun c => if c.base.isOpen then some c else none
+    else none
+  -- the viewer can still send messages
+  let talk (n : Nat) : Option Resize.Client := if s.peerGone.contains n then none else live n
+  let hookFails : Bool := s.nscr ≥ 0 && s.extFail ≥ 0 && s.extFail < s.nscr
   let doOp (op : Op) : DState × Obs :=
     let (st', o) := step s.st op
     ({ s with st := st' }, o)
@@ -83,38 +107,39 @@ def dstep (s : DState) (toks : List String) : DState × List String :=
   | ["setenc", n, cr, cs, sz] =>
     match n.toNat?, ints? [cr, cs, sz] with
     | some n, some [cr, cs, sz] =>
-      match live n with
+      match talk n with
       | some _ => ((doOp (.setEncodings n (cr != 0) (cs != 0) (sz % 2 == 1) (sz / 2 % 2 == 1))).1, ["ok"])
       | none => (s, ["bad-op"])
     | _, _ => (s, ["bad-op"])
   | ["setpf", n, b] =>
     match n.toNat?, parseInt? b with
     | some n, some b =>
-      match live n with
+      match talk n with
       | some _ =>
-        if validB b then
+        if 0 ≤ b && b ≤ 4 then
+          -- b = 0: colour-map client, served as BGR233 after the palette was sent;
           -- the harness' client re-requests everything after changing its format
-          let st1 := (step s.st (.setPixelFormat n b)).1
+          let st1 := (step s.st (.setPixelFormat n (if b == 0 then 1 else b))).1
           let st2 := (step st1 (.request n false 0 0 65535 65535)).1
-          ({ s with st := st2 }, ["ok"])
+          ({ s with st := st2 }, [if b == 0 then "cmap 0 256" else "none"])
         else (s, ["bad-op"])
       | none => (s, ["bad-op"])
     | _, _ => (s, ["bad-op"])
   | ["setscale", n, k] =>
     match n.toNat?, parseInt? k with
     | some n, some k =>
-      match live n with
+      match talk n with
       | some _ =>
         if k ≤ 0 then (s, ["bad-op"]) else
         let (st1, o) := step s.st (.setScale n k)
         let st2 := (step st1 (.request n false 0 0 65535 65535)).1
-        ({ s with st := st2 }, [showObs o])
+        ({ s with st := st2 }, [showObs s.nscr o])
       | none => (s, ["bad-op"])
     | _, _ => (s, ["bad-op"])
   | ["ptr", n, x, y] =>
     match n.toNat?, ints? [x, y] with
     | some n, some [x, y] =>
-      match live n with
+      match talk n with
       | some _ => ((doOp (.pointer n x y)).1, ["ok"])
       | none => (s, ["bad-op"])
     | _, _ => (s, ["bad-op"])
@@ -137,7 +162,7 @@ def dstep (s : DState) (toks : List String) : DState × List String :=
   | ["sds", n, w, h, ns] =>
     match n.toNat?, ints? [w, h, ns] with
     | some n, some [w, h, ns] =>
-      match live n with
+      match talk n with
       | some _ =>
         if ns < 0 || ns > 255 then (s, ["bad-op"]) else
         let resizes := s.hookMode == 2 && s.hookCode == 0 && w > 0 && h > 0 && w ≤ 64 && h ≤ 64 && ns != 0
@@ -159,7 +184,7 @@ def dstep (s : DState) (toks : List String) : DState × List String :=
   | ["req", n, incr, x, y, w, h] =>
     match n.toNat?, ints? [incr, x, y, w, h] with
     | some n, some [incr, x, y, w, h] =>
-      match live n with
+      match talk n with
       | some _ => ((doOp (.request n (incr != 0) x y w h)).1, ["ok"])
       | none => (s, ["bad-op"])
     | _, _ => (s, ["bad-op"])
@@ -167,11 +192,85 @@ def dstep (s : DState) (toks : List String) : DState × List String :=
     match n.toNat? with
     | some n =>
       match live n with
-      | some _ =>
-        let (s', o) := doOp (.update n)
-        (s', [showObs o])
+      | some c =>
+        if s.peerGone.contains n then
+          -- the write (if any) fails: rfbCloseClient; a size message the application's failing
+          -- screen hook makes the library drop is never written
+          let (s', _) := doOp (if hookFails && extFails c then .updateExtFail n else .updateFail n)
+          let closed := match getClient s'.st n with
+            | some c => !c.base.isOpen
+            | none => false
+          (s', [if closed then "closed" else "none"])
+        else
+          let (s', o) := doOp (if hookFails then .updateExtFail n else .update n)
+          (s', [showObs s.nscr o])
       | none => (s, ["bad-op"])
     | none => (s, ["bad-op"])
+  | ["close", n] =>
+    match n.toNat? with
+    | some n =>
+      match talk n with
+      | some _ => ({ s with peerGone := n :: s.peerGone }, ["ok"])
+      | none => (s, ["bad-op"])
+    | none => (s, ["bad-op"])
+  | ["reap", n] =>
+    match n.toNat? with
+    | some n =>
+      match (if s.haveScreen && !s.reaped.contains n then getClient s.st n else none) with
+      | some c => if c.base.isOpen then (s, ["bad-op"]) else ({ s with reaped := n :: s.reaped }, ["ok"])
+      | none => (s, ["bad-op"])
+    | none => (s, ["bad-op"])
+  | ["sdstrunc", n, cut, ns, _rst] | ["sdstrunc", n, cut, ns] =>
+    match n.toNat?, ints? [cut, ns] with
+    | some n, some [cut, ns] =>
+      match talk n with
+      | some _ =>
+        if ns < 0 || ns > 255 || cut < 0 || cut ≥ 8 + 16 * ns then (s, ["bad-op"]) else
+        let (s', _) := doOp (.drop n)
+        ({ s' with peerGone := n :: s.peerGone }, ["closed"])
+      | none => (s, ["bad-op"])
+    | _, _ => (s, ["bad-op"])
+  | ["nscr", k] =>
+    match parseInt? k with
+    | some k => if !s.haveScreen then (s, ["bad-op"]) else ({ s with nscr := if k < 0 then -1 else k }, ["ok"])
+    | none => (s, ["bad-op"])
+  | ["extfail", j] =>
+    match parseInt? j with
+    | some j => if !s.haveScreen then (s, ["bad-op"]) else ({ s with extFail := j }, ["ok"])
+    | none => (s, ["bad-op"])
+  | ["dfhook", _] => if !s.haveScreen then (s, ["bad-op"]) else (s, ["ok"])
+  | ["emit", n, kind, ub] =>
+    match n.toNat?, ints? [kind, ub] with
+    | some n, some [kind, ub] =>
+      match live n with
+      | some _ =>
+        if ub < 0 || ub > (VncModel.Gen.C16.UPDATE_BUF_SIZE : Int) then (s, ["bad-op"]) else
+        let k : Nat := if s.nscr < 0 then 1 else s.nscr.toNat
+        let need : Nat := if kind != 0 then 12 + 4 + 16 * k else 12
+        let r := emitRule ub.toNat need
+        if s.peerGone.contains n then
+          -- the viewer is gone: a needed flush fails inside the emitter (nothing appended, FALSE);
+          -- otherwise the rectangle is appended and the harness' flush fails; closed either way
+          let flush := r.1 != 0
+          let st1 := if kind != 0 && !flush then
+              modClient s.st n (fun c => { c with reqChange := 0, lastErr := 0 }) else s.st
+          let st2 := (step st1 (.drop n)).1
+          let line :=
+            if flush then s!"emit ok=0 ub={ub} closed"
+            else if kind != 0 && hookFails then s!"emit ok=0 ub={ub.toNat + 12 + 4 + 16 * s.extFail.toNat} closed"
+            else s!"emit ok=1 ub={r.2} closed"
+          ({ s with st := st2 }, [line])
+        else
+        if kind != 0 then
+          -- rfbSendExtDesktopSize resets reason / status before it walks the screens
+          let st1 := modClient s.st n (fun c => { c with reqChange := 0, lastErr := 0 })
+          if hookFails then
+            let base : Nat := if r.1 == 0 then ub.toNat else 0
+            ({ s with st := st1 }, [s!"emit ok=0 ub={base + 12 + 4 + 16 * s.extFail.toNat}"])
+          else ({ s with st := st1 }, [s!"emit ok=1 ub={r.2}"])
+        else (s, [s!"emit ok=1 ub={r.2}"])
+      | none => (s, ["bad-op"])
+    | _, _ => (s, ["bad-op"])
   | ["state", n] =>
     match n.toNat? with
     | some n =>
